@@ -110,6 +110,23 @@ CLAIMS = {
         technique='Lean 4 proof (induction on the loop, case analysis of the variable lookup, kernel evaluation over the full '
                   'finite numeral range) + model/implementation correspondence + independent value oracle',
         ref='DESIGN.md §5 C10'),
+    'C01': dict(
+        text='Lean 4 theorems, for ALL sources: (scanner) candidate_text, matchEpfs_text, scan_reconstruct, tokens_reconstruct / '
+             'tokens_lossless (literals and tag texts of the token stream, concatenated in order, are exactly the source), '
+             'skipEol_spec (only one run of blanks/tabs ending in a newline is ever removed); (builder) nodesLits_append, '
+             'soFar_pushNodes, buildAux_lits (invariant of the stack builder), compile_literals (the literal nodes of the compiled '
+             'tree, in document order through all nesting, are exactly the texts between the tags, each unchanged or with one '
+             'skipped line end, empty ones omitted), tagfree_identity; (interpreter) lit_verbatim, blocks_in_order, '
+             'literal_around, tagfree_renders_itself, literal_only_when_rendered. Correspondence: token streams and compiled '
+             'trees incl. every literal node, model vs real parser, on literal-rich templates in 3 syntaxes, tag-free texts and '
+             'concatenations; oracle: independent printer for the rendering (sentinel values, documented line-end rule), '
+             'tag-free sources render to themselves, render(a+b) == render(a)+render(b)',
+        note='Trusted: Lean kernel; hand-compiled scanners validated against CPython re by token correspondence; the compiled '
+             'tree (Parse.Node) and the interpreter\'s blocks (Render.Blk) are two models tied to the code separately. Partial: '
+             'the composition statement render(a+b) is decided by the oracle, not yet by a theorem over both models',
+        technique='Lean 4 proof (induction over the text for the scanner, stack-machine invariant for the builder) + '
+                  'model/implementation correspondence + independent-printer oracle',
+        ref='DESIGN.md §5 C01'),
     'C08': dict(
         text='Lean 4 theorems about the interpreter model (Render.lean: namespace stack, lookups with auto-call, '
              'expressions, every block tag, sub-template calls, dtml-return, exceptions, fault plans as part of the '
